@@ -117,9 +117,11 @@ def h_front8(hx, n):
     c = hx.int(8, "c")
     hx.prove(IFF(CRC8.check(data, c), c == ref), "CRC8.check accepts exactly the computed value (%d bits)" % n)
     # a different message of another length in between must not influence the next result
-    other = hx.ba(n + 1, "o")
-    CRC8.calculate(other)
-    hx.prove(CRC8.calculate(data) == ref, "CRC8.calculate(%d bits) unchanged after an unrelated calculation over %d bits" % (n, n + 1))
+    for extra in (1, 8):
+        other = hx.ba(n + extra, "o%d" % extra)
+        ref_o = bits_to_int(ref_crc(other.tolist(), 8))
+        hx.prove(CRC8.calculate(other) == ref_o, "CRC8.calculate(%d bits) right after a calculation over %d bits == remainder" % (n + extra, n))
+        hx.prove(CRC8.calculate(data) == ref, "CRC8.calculate(%d bits) unchanged after an unrelated calculation over %d bits" % (n, n + extra))
     hx.cover("crc8")
 
 
